@@ -1,6 +1,36 @@
-(* C16 — placeholder while the invariants are being proved (see Proofs/ExecProofs.v). *)
-From Coq Require Import List.
-From FB Require Import Model.Exec.
-Example C16_model_runs : exists nt s, run nt 1 (init nt) nil = Ok s.
-Proof. exists nil, (init nil). reflexivity. Qed.
-Print Assumptions C16_model_runs.
+(* C16 — Per-node metrics account for every event exactly once.
+   Counters are per table row; the property's domain is configurations in which node AND handler ids are
+   distinct (counters are keyed by id).  Proofs in Proofs/ExecCount*.v. *)
+From Coq Require Import List ZArith Bool Arith.
+From FB Require Import Model.Exec Model.TraceSpec Model.ExecInv.
+From FB Require Proofs.ExecCount Proofs.ExecProps Proofs.ExecTerminal.
+Import ListNotations.
+
+(* each counter is exactly the number of the corresponding observable events, in every reachable state:
+   received = calls entered; processed = completed outcomes with a non-empty result (a fanout of k counts once);
+   filtered = completed outcomes with nil / empty result; failed = completed outcomes with an error;
+   discarded = events dropped at this node's full buffer *)
+Theorem C16_counters_meaning : forall nt T s n, reachable nt T s -> n < length nt ->
+  c_recv (node s n) = length (entered n (tr s)) /\ c_proc (node s n) = n_proc n (tr s)
+  /\ c_filt (node s n) = n_filt n (tr s) /\ c_fail (node s n) = n_fail n (tr s)
+  /\ c_disc (node s n) = length (dropped (node s n)).
+Proof. exact ExecProps.counters_meaning. Qed.
+
+(* the accounting identity in EVERY reachable state: received = processed + filtered + failed + calls in
+   progress + async events in flight; at quiescence the last two vanish *)
+Theorem C16_accounting_identity : forall nt T s n, reachable nt T s -> n < length nt ->
+  c_recv (node s n) = c_proc (node s n) + c_filt (node s n) + c_fail (node s n)
+    + length (filter (fun w => match w with WProc _ => true | _ => false end) (ws (node s n)))
+    + length (inflight (node s n)).
+Proof. exact ExecCount.accounting_identity. Qed.
+
+(* at the end of a clean run the decision procedure on the implementation's counters ((16,1)..(16,5)) accepts
+   every run of the model *)
+Theorem C16_spec_sound : forall nt T s, wf_net nt = true -> forallb (fun x => Nat.ltb 0 (nworkers x)) nt = true ->
+  reachable nt T s -> mn s = MDone -> timedout s = false ->
+  terminal_ok nt (tr s) (map counters_of (nodes s)) = [].
+Proof. exact ExecTerminal.terminal_ok_clean_end. Qed.
+
+Print Assumptions C16_counters_meaning.
+Print Assumptions C16_accounting_identity.
+Print Assumptions C16_spec_sound.
